@@ -173,7 +173,7 @@ def network_case(draw):
         e = draw(netgen.variable_gain_entry('RB', band=(192.2e12, 196.125e12), design=True))
         lib.append(e)
     eq = draw(netgen.equipment(edfa=lib))
-    chain_kw = {'fiber_kw': {'lumped': False, 'per_freq_loss': False, 'loss': (0.17, 0.32)}}
+    chain_kw = {'fiber_kw': {'lumped': False, 'per_freq_loss': True, 'loss': (0.17, 0.32)}}
     topo, truth = draw(netgen.topology(eq, n=(2, 4), extra_max=2, chain_kw=chain_kw))
     return {'eq': eq, 'topo': topo, 'truth': truth}
 
@@ -229,9 +229,23 @@ def run_network(case, ctx):
                 ctx.violation('chosen-model-not-permitted', f'{node.uid}: {chosen} not in {permitted}')
                 continue
             if isinstance(prev_node, elements.Fiber):
-                raman_allowed = bool((prev_node.params.loss_coef * 1e3 < limit).all())
+                # the fibre as the user wrote it (pieces of a split fibre are named <uid>_(k/n)): every listed loss value
+                # must be below the configured limit
+                fj = el_json.get(prev_node.uid.split('_(')[0])
+                lc = fj['params']['loss_coef'] if fj is not None else None
+                if isinstance(lc, dict):
+                    raman_allowed = all(v < limit for v in lc['value'])
+                    ctx.label('prev-fibre:per-frequency-loss')
+                    if not raman_allowed and min(lc['value']) < limit:
+                        ctx.label('prev-fibre:loss-straddles-raman-limit')
+                elif lc is not None:
+                    raman_allowed = lc < limit
+                else:
+                    raman_allowed = bool((prev_node.params.loss_coef * 1e3 < limit).all())
             else:
                 raman_allowed = False
+            if equipment['Edfa'][chosen].raman:
+                ctx.label('chosen:raman-model')
             if equipment['Edfa'][chosen].raman and not raman_allowed:
                 ctx.violation('raman-model-after-lossy-fibre-or-non-fibre', f'{node.uid}: {chosen}, previous {prev_node.uid}')
                 continue
